@@ -141,6 +141,13 @@ ASMJIT_FAVOR_SIZE Error init_func_detail(FuncDetail& func, const FuncSignature& 
         FuncValue& arg = func._args[i][0];
         TypeId type_id = arg.type_id();
 
+        // Apple passes all variadic arguments via stack, each of them occupies at least 8 bytes.
+        if (i == func.va_index() && cc.strategy() == CallConvStrategy::kAArch64Apple) {
+          gpz_pos = CallConv::kMaxRegArgsPerGroup;
+          vec_pos = CallConv::kMaxRegArgsPerGroup;
+          min_stack_arg_size = 8u;
+        }
+
         if (TypeUtils::is_int(type_id)) {
           uint32_t reg_id = Reg::kIdBad;
 
